@@ -184,7 +184,7 @@ func nativeReplay(repo string, realFiles map[string]string, harnessNames []strin
 		os.Remove(outFile)
 		data, _ := json.Marshal(cs)
 		os.WriteFile(inFile, data, 0o644)
-		cmd := exec.Command(bin, "-test.run", "^TestVPReplay$", "-test.count=1", "-test.timeout=30m")
+		cmd := exec.Command(bin, "-test.run", "^TestVPReplay$", "-test.count=1", "-test.timeout="+replayTimeout)
 		cmd.Dir = repo
 		cmd.Env = append(os.Environ(), "TZ=UTC", "VP_REPLAY_IN="+inFile, "VP_REPLAY_OUT="+outFile)
 		outb, err := cmd.CombinedOutput()
@@ -230,6 +230,10 @@ func nativeReplay(repo string, realFiles map[string]string, harnessNames []strin
 	}
 	return results, lastOut, nil
 }
+
+// replayTimeout: the deadline of one native replay process (short for the replay of a path that
+// exhausted its instruction budget: not coming back is the expected outcome there)
+var replayTimeout = "30m"
 
 func firstFatalLine(out string) string {
 	for _, l := range strings.Split(out, "\n") {
@@ -457,6 +461,23 @@ func cmdCheck(args []string) {
 	}
 	nVio := len(cases)
 	cases = append(cases, confCases...)
+	// a path that exhausted its budget is replayed alone, with a short deadline: reproduced means that
+	// the real build does not come back either (killed by the deadline or dead of memory exhaustion)
+	budgetRes := map[int]*ReplayResult{}
+	if !*noReplay {
+		for i, v := range newVios {
+			if v.Kind != "budget" {
+				continue
+			}
+			replayTimeout = "10s"
+			rs, _, err := nativeReplay(*repo, realFiles, allNames, []ReplayCase{{Harness: v.Harness, Tape: v.Tape}}, scratch, nil)
+			replayTimeout = "30m"
+			if err == nil && len(rs) == 1 {
+				budgetRes[i] = &rs[0]
+			}
+			cases[i].Harness = "" // not run again in the batch
+		}
+	}
 	var results []ReplayResult
 	replayS := 0.0
 	if !*noReplay && len(cases) > 0 {
@@ -480,6 +501,10 @@ func cmdCheck(args []string) {
 		ok := false
 		if results != nil {
 			nr = &results[i]
+			if v.Kind == "budget" {
+				nr = budgetRes[i]
+				ok = nr != nil && nr.Crashed
+			}
 			switch v.Kind {
 			case "assert":
 				ok = contains(nr.Fails, v.ID)
@@ -491,6 +516,10 @@ func cmdCheck(args []string) {
 			}
 		} else if *noReplay {
 			ok = true
+		}
+		if !ok && v.Kind == "budget" {
+			// the real build came back: the budget was the interpreter's, the path stays inconclusive
+			continue
 		}
 		if !ok {
 			disagree++
@@ -720,6 +749,9 @@ func cmdReplay(args []string) {
 	if err != nil {
 		fatal(err)
 	}
+	if rf.Kind == "budget" {
+		replayTimeout = "10s"
+	}
 	res, out, err := nativeReplay(repo, realFiles, []string{rf.Harness}, []ReplayCase{{Harness: rf.Harness, Tape: rf.Tape}}, scratch, nil)
 	if err != nil {
 		fmt.Println(out)
@@ -733,6 +765,8 @@ func cmdReplay(args []string) {
 		reproduced = contains(r.Fails, rf.Assert)
 	case "panic":
 		reproduced = r.Panicked
+	case "budget":
+		reproduced = r.Crashed // did not come back within the deadline (or died of memory exhaustion)
 	}
 	if reproduced {
 		fmt.Printf("REPRODUCED %s/%s\n", rf.Harness, rf.Assert)
